@@ -37,7 +37,7 @@ def make_req(ctx, rng, cache, ep, algo, key, data):
 def run(ctx):
     rng = ctx.rng
     modes = drv.QUICK_MODES if ctx.quick else drv.ALL_MODES
-    nh = 60 if ctx.quick else 1500
+    nh = 200 if ctx.quick else 3000
     ctx.rule = ("history = 15-40 writes of 2-4 byte strings (incl. empty) under all five algorithms, same key / other "
                 "keys / by address, one-shot and streamed entry points, all modes, also after remove_hash; after "
                 "EVERY write a census of content-v2 (path, length, sha256, inode) is compared with the expected set "
